@@ -6,6 +6,8 @@ import (
 	"math/big"
 	"sort"
 
+	"github.com/MixinNetwork/mixin/crypto"
+
 	"verifharness/vh"
 )
 
@@ -417,7 +419,7 @@ func genAgg(r *vh.Rand, tampers int) Case {
 	claimed := append([]int{}, actual...)
 	cs := Case{Op: "inputs", Kind: kind, NMaps: -1, TxType: -1, Tampers: tampers, TSeed: r.U64(),
 		Extra: hex.EncodeToString(r.Bytes(r.Intn(24)))}
-	ag := &AggSpec{Seed: hex.EncodeToString(r.Bytes(32))}
+	ag := &AggSpec{Seed: hex.EncodeToString(r.Bytes(32)), By: signedBy(r)}
 	switch kind {
 	case "agg-unsorted":
 		if len(claimed) >= 2 {
@@ -859,7 +861,7 @@ func genMemoInputs(r *vh.Rand, order string, agg bool, shape string, maxTampers 
 			off += len(ins[i].Keys)
 		}
 		base.Inputs, base.Privs = ins, p.privs
-		base.Agg = &AggSpec{Signers: actual, Actual: actual, Seed: hex.EncodeToString(r.Bytes(32))}
+		base.Agg = &AggSpec{Signers: actual, Actual: actual, Seed: hex.EncodeToString(r.Bytes(32)), By: signedBy(r)}
 		add("memo-agg-flip", func(c *Case) { c.Agg.Tamper = 1 + r.Intn(64); c.Agg.Xor = 1 << uint(r.Intn(8)) })
 		add("memo-agg-other-payload", func(c *Case) { c.Agg.Other = true })
 		in := map[int]bool{}
@@ -961,8 +963,9 @@ func genMemoCrypto(r *vh.Rand, order string) Case {
 	}
 	actual := subset(r, n, r.Range(1, n-1))
 	seed := hex.EncodeToString(r.Bytes(32))
+	by := signedBy(r)
 	aggv := func(kind string, f func(a *AggSpec)) Case {
-		a := &AggSpec{Signers: append([]int{}, actual...), Actual: append([]int{}, actual...), Seed: seed}
+		a := &AggSpec{Signers: append([]int{}, actual...), Actual: append([]int{}, actual...), Seed: seed, By: by}
 		f(a)
 		return Case{Op: "aggv", Kind: kind, Msg: msg, TxType: -1, Privs: privs, Agg: a}
 	}
@@ -1068,7 +1071,7 @@ func genLockHistory(r *vh.Rand, agg bool, variant string) Case {
 		Inputs: ins, Privs: p.privs}
 	if agg {
 		base.NMaps = -1
-		base.Agg = &AggSpec{Signers: signers, Actual: signers, Seed: hex.EncodeToString(r.Bytes(32))}
+		base.Agg = &AggSpec{Signers: signers, Actual: signers, Seed: hex.EncodeToString(r.Bytes(32)), By: signedBy(r)}
 	}
 	fork := variant == "other"
 	first := cloneCase(base)
@@ -1163,6 +1166,77 @@ func genLockHistory(r *vh.Rand, agg bool, variant string) Case {
 	return Case{Op: "memo", Kind: kind, TxType: -1, Steps: steps}
 }
 
+// who produces the aggregate signature: the repository's AggregateSign or the harness' own
+// transcription of the scheme (both must be accepted by AggregateVerify and by the transcription)
+func signedBy(r *vh.Rand) string {
+	if r.Bool() {
+		return "ref"
+	}
+	return ""
+}
+
+// ---- rogue keys -------------------------------------------------------------------------------
+// key list V_1..V_k plus the rogue key X - sum V_j (a valid prime-order point nobody knows the
+// discrete log of); the attacker holds x only and claims ALL keys as signers with a signature
+// made from c*x, c being his guess of a coefficient common to the whole set.
+var forgeWeakenings = []string{"uniform", "plain", "noindex", "nokey", "notranscript", "full"}
+
+func genRogue(r *vh.Rand, weak string, direct bool) Case {
+	if weak == "" {
+		weak = forgeWeakenings[r.Intn(len(forgeWeakenings))]
+	}
+	p := &pool{r: r}
+	k := r.Range(1, 3)
+	roguePos := k // the forged coefficient guesses refer to the last signer
+	if weak == "uniform" || weak == "plain" || weak == "notranscript" {
+		roguePos = r.Intn(k + 1)
+	}
+	var keys []int
+	var victims []crypto.Key
+	for pos := 0; pos <= k; pos++ {
+		i := p.fresh()
+		keys = append(keys, i)
+		if pos != roguePos {
+			victims = append(victims, keyFromHex(p.privs[i]).Public())
+		}
+	}
+	rk := rogueKey(keyFromHex(p.privs[keys[roguePos]]), victims)
+	keyHex := make([]string, k+1)
+	keyHex[roguePos] = hex.EncodeToString(rk[:])
+	ag := &AggSpec{Signers: seq(k + 1), Actual: nil, Forge: weak, ForgeBy: keys[roguePos], Seed: hex.EncodeToString(r.Bytes(32))}
+	if direct {
+		return Case{Op: "aggv", Kind: "rogue-direct-" + weak, Msg: hex.EncodeToString(r.Bytes(32)), TxType: -1,
+			Privs: p.privs, KeyHex: keyHex, Agg: ag}
+	}
+	t := k + 1
+	if r.Chance(1, 3) {
+		t = r.Range(2, k+1)
+	}
+	in := InputSpec{Type: 0, Script: scriptHex(t), Keys: keys, KeyHex: keyHex}
+	return Case{Op: "inputs", Kind: "rogue-" + weak, Inputs: []InputSpec{in}, Privs: p.privs, NMaps: -1, Agg: ag, TxType: -1,
+		Extra: hex.EncodeToString(r.Bytes(r.Intn(8)))}
+}
+
+// the honest owners of a key list that contains a rogue key sign: accepted when they reach the threshold
+func genRogueHonest(r *vh.Rand) Case {
+	cs := genRogue(r, "uniform", false)
+	in := &cs.Inputs[0]
+	var honest []int
+	for j := range in.Keys {
+		if in.KeyHex[j] == "" {
+			honest = append(honest, j)
+		}
+	}
+	t := len(honest)
+	if r.Bool() {
+		t++ // one short: the rogue key cannot sign
+	}
+	in.Script = scriptHex(t)
+	cs.Kind = "rogue-list-owners-sign"
+	cs.Agg = &AggSpec{Signers: honest, Actual: honest, Seed: hex.EncodeToString(r.Bytes(32)), By: signedBy(r)}
+	return cs
+}
+
 func genMemo(r *vh.Rand) Case {
 	if r.Chance(2, 5) {
 		return genLockHistory(r, r.Chance(1, 3), []string{"all", "all", "some", "other"}[r.Intn(4)])
@@ -1197,8 +1271,13 @@ func gen(c *vh.Ctx) Case {
 		return genMemo(r)
 	case x < 43:
 		return genCancelInputs(r, "")
-	case x < 71:
+	case x < 68:
 		return genAgg(r, tampers)
+	case x < 71:
+		if r.Chance(1, 5) {
+			return genRogueHonest(r)
+		}
+		return genRogue(r, "", r.Chance(1, 3))
 	case x < 76:
 		return genScript(r)
 	case x < 85:
@@ -1306,7 +1385,7 @@ func corpus() []Case {
 	agg := func(kind string, nkeys, ths, signers, actual []int) {
 		mk(kind, nkeys, ths, func(p *pool, ins []InputSpec, cs *Case) {
 			cs.NMaps = -1
-			cs.Agg = &AggSpec{Signers: signers, Actual: actual, Seed: hex.EncodeToString(r.Bytes(32))}
+			cs.Agg = &AggSpec{Signers: signers, Actual: actual, Seed: hex.EncodeToString(r.Bytes(32)), By: signedBy(r)}
 		})
 	}
 	agg("agg-2-1-all", []int{2, 2}, []int{2, 1}, []int{0, 1, 2}, []int{0, 1, 2})
@@ -1350,6 +1429,11 @@ func corpus() []Case {
 	out = append(out, genMemoInputs(r, "tamper-first", true, "", 6))
 	out = append(out, genMemoCrypto(r, "genuine-first"))
 	out = append(out, genMemoCrypto(r, "tamper-first"))
+	// rogue-key forgeries under every coefficient weakening, through Validate and through AggregateVerify
+	for _, w := range forgeWeakenings {
+		out = append(out, genRogue(r, w, false))
+	}
+	out = append(out, genRogue(r, "uniform", true), genRogue(r, "plain", true), genRogueHonest(r), genRogueHonest(r))
 	// lock histories: validated, inputs locked in the store, then the same payload forged
 	out = append(out, genLockHistory(r, false, "all"))
 	out = append(out, genLockHistory(r, true, "all"))
